@@ -5,114 +5,152 @@ import TlsProofs.OrderRun
 -/
 namespace Tls.Order
 
-theorem step_cases (c : Cfg) (s : St) (ep n : Nat) (m : Msg) :
-    step c s ep n m = stepK0 c s m.kind ∨ (∃ a, step c s ep n m = .abort a) ∨
-    (∃ a, step c s ep n m = .acceptAbort a ∧ firstHello c s m.kind = true) := by
-  unfold step
-  split
-  · rcases stepK_plus c s m.kind m.plus with h | h | h
-    · exact Or.inl h
-    · exact Or.inr (Or.inl ⟨_, h⟩)
-    · exact Or.inr (Or.inr ⟨_, h⟩)
-  · exact Or.inr (Or.inl ⟨_, rfl⟩)
+theorem step_cases (c : Cfg) (r : Run) (m : Msg) :
+    step c r m = stepK0 c r.st r.outstanding m.kind ∨ (∃ a, step c r m = .abort a) ∨
+    (∃ a, step c r m = .acceptAbort a ∧ firstHello c r.st m.kind = true) ∨
+    step c r m = .buffer m.kind ∨
+    (step c r m = .acceptAbort .unexpected_message ∧ m.kind = .ccs) := by
+  rcases step_shape c r m with ⟨p, hs, _⟩ | ⟨hs, _⟩ | ⟨a, hs⟩ | ⟨hs, _, _⟩
+  · rcases stepK_plus c r.st r.outstanding m.kind p with h | h | h
+    · exact Or.inl (hs.trans h)
+    · exact Or.inr (Or.inl ⟨_, hs.trans h⟩)
+    · exact Or.inr (Or.inr (Or.inl ⟨_, hs.trans h.1, h.2⟩))
+  · exact Or.inr (Or.inr (Or.inr (Or.inl hs)))
+  · exact Or.inr (Or.inl ⟨a, hs⟩)
+  · exact Or.inr (Or.inr (Or.inr (Or.inr ⟨hs, ‹_›⟩)))
 
-theorem step_hs (c : Cfg) (s : St) (ep n : Nat) (m : Msg) (hd : s ≠ .done) :
-    step c s ep n m ≠ .warn ∧ step c s ep n m ≠ .deliver ∧ step c s ep n m ≠ .post := by
-  rcases step_cases c s ep n m with h | ⟨a, h⟩ | ⟨a, h, _⟩
-  · rw [h]; exact stepK0_hs c s m.kind hd
+/-- before completion: no warning, no delivery, no post-handshake processing -/
+theorem step_hs (c : Cfg) (r : Run) (m : Msg) (hp : r.st.isPost = false) :
+    step c r m ≠ .warn ∧ step c r m ≠ .deliver ∧ (∀ b, step c r m ≠ .post b) ∧
+    (∀ s', step c r m ≠ .phaStart s') := by
+  rcases step_cases c r m with h | ⟨a, h⟩ | ⟨a, h, _⟩ | h | ⟨h, _⟩
+  · rw [h]; have := stepK0_hs c r.st r.outstanding m.kind hp; exact ⟨this.1, this.2.1, this.2.2.1, this.2.2.2.1⟩
+  · rw [h]; simp
+  · rw [h]; simp
   · rw [h]; simp
   · rw [h]; simp
 
-/-- outcomes of `stepDone`: completion is never left except by closing the connection -/
-theorem stepDone_no_next (c : Cfg) (k : MsgKind) : ∀ s b, stepDone c k ≠ .next s b := by
-  intro s b
-  unfold stepDone
-  repeat' split
-  all_goals simp
+theorem PostOut.target_post (o : PostOut) :
+    (∀ s' b, o.toOut = .next s' b → s'.isPost = true) ∧ (∀ s', o.toOut = .phaStart s' → s'.isPost = true) := by
+  cases o <;> simp [PostOut.toOut, St.isPost]
+  rename_i cv; cases cv <;> simp
 
-theorem step_done_no_next (c : Cfg) (ep n : Nat) (m : Msg) : ∀ s b, step c .done ep n m ≠ .next s b := by
-  intro s b
-  rcases step_cases c .done ep n m with h | ⟨a, h⟩ | ⟨a, h, _⟩
-  · rw [h]; simp only [stepK0]; exact stepDone_no_next c m.kind s b
+/-- post-handshake outcomes never lead back into the handshake: every `next`/`phaStart` target is
+    again a post-handshake position -/
+theorem stepK0_post_target (c : Cfg) (s : St) (n : Nat) (k : MsgKind) (hp : s.isPost = true) :
+    (∀ s' b, stepK0 c s n k = .next s' b → s'.isPost = true) ∧
+    (∀ s', stepK0 c s n k = .phaStart s' → s'.isPost = true) := by
+  cases s <;> simp [St.isPost] at hp <;> simp only [stepK0] <;> exact PostOut.target_post _
+
+theorem step_post_target (c : Cfg) (r : Run) (m : Msg) (hp : r.st.isPost = true) :
+    (∀ s' b, step c r m = .next s' b → s'.isPost = true) ∧
+    (∀ s', step c r m = .phaStart s' → s'.isPost = true) := by
+  have hk := stepK0_post_target c r.st r.outstanding m.kind hp
+  rcases step_cases c r m with h | ⟨a, h⟩ | ⟨a, h, _⟩ | h | ⟨h, _⟩
+  · rw [h]; exact hk
+  · rw [h]; simp
+  · rw [h]; simp
   · rw [h]; simp
   · rw [h]; simp
 
 /-- the invariant of every run -/
 structure Inv (r : Run) : Prop where
-  noData : r.hsDone = false → r.delivered = 0 ∧ r.st ≠ .done
-  atDone : r.st = .done → r.hsDone = true ∧ r.closed = false
+  noData : r.hsDone = false → r.delivered = 0 ∧ r.st.isPost = false
+  atDone : r.st.isPost = true → r.hsDone = true ∧ r.closed = false
   alertDead : r.alert.isSome = true → r.st = .dead ∧ r.closed = true
+  hsPost : r.st.isPost = false → r.st ≠ .dead → r.hsDone = false
 
 theorem inv_start (c : Cfg) : Inv (start c) := by
-  constructor <;> simp [start] <;> (split <;> simp)
+  constructor <;> simp [start] <;> (split <;> simp [St.isPost])
 
-theorem countRecord_fields (c : Cfg) (r : Run) (m : Msg) :
-    (countRecord c r m).st = r.st ∧ (countRecord c r m).hsDone = r.hsDone ∧
-    (countRecord c r m).delivered = r.delivered ∧ (countRecord c r m).closed = r.closed ∧
-    (countRecord c r m).alert = r.alert ∧ (countRecord c r m).accAtDone = r.accAtDone ∧
-    (countRecord c r m).epoch = r.epoch ∧ (countRecord c r m).acc = r.acc ∧
-    (countRecord c r m).warns = r.warns := by
-  unfold countRecord; split <;> simp
+theorem pre_fields (c : Cfg) (r : Run) (m : Msg) :
+    let q := clearPending (countRecord c r m) m
+    q.st = r.st ∧ q.hsDone = r.hsDone ∧ q.delivered = r.delivered ∧ q.closed = r.closed ∧
+    q.alert = r.alert ∧ q.accAtDone = r.accAtDone ∧ q.epoch = r.epoch ∧ q.acc = r.acc ∧
+    q.warns = r.warns ∧ q.outstanding = r.outstanding := by
+  unfold clearPending countRecord; split <;> split <;> simp
 
 theorem inv_feed (c : Cfg) (r : Run) (m : Msg) (h : Inv r) : Inv (feed c r m) := by
   unfold feed
   by_cases hd : (r.st == St.dead) = true
   · simp only [hd, if_true]; exact h
   · simp only [hd]
-    obtain ⟨f1, f2, f3, f4, f5, _, _, _, _⟩ := countRecord_fields c r m
+    obtain ⟨f1, f2, f3, f4, f5, _, _, _, _, _⟩ := pre_fields c r m
+    generalize clearPending (countRecord c r m) m = q at *
     have hnd : r.st ≠ .dead := by simpa using hd
     have hna : r.alert.isSome = false := by
       cases ha : r.alert.isSome
       · rfl
       · exact absurd (h.alertDead ha).1 hnd
-    generalize ho : step c r.st r.epoch r.recsInEpoch m = o
-    have hhs := step_hs c r.st r.epoch r.recsInEpoch m
-    have hnn := step_done_no_next c r.epoch r.recsInEpoch m
-    rw [ho] at hhs
-    have hdone_of : (o = .warn ∨ o = .deliver ∨ o = .post) → r.st = .done := by
+    generalize ho : step c r m = o
+    have hpostOf : (o = .warn ∨ o = .deliver ∨ (∃ b, o = .post b) ∨ (∃ s', o = .phaStart s')) → r.st.isPost = true := by
       intro hh
-      apply Classical.byContradiction
-      intro hc
-      have := hhs hc
-      rcases hh with e | e | e <;> simp [e] at this
+      cases hq : r.st.isPost
+      · have := step_hs c r m hq
+        rw [ho] at this
+        rcases hh with e | e | ⟨b, e⟩ | ⟨s', e⟩
+        · exact absurd e this.1
+        · exact absurd e this.2.1
+        · exact absurd e (this.2.2.1 b)
+        · exact absurd e (this.2.2.2 s')
+      · rfl
     cases o with
     | next s b =>
-      have hsd : r.st ≠ .done := by
-        intro e; rw [e] at ho; exact hnn s b ho
-      by_cases hdn : (s == St.done) = true
-      · constructor <;> simp [apply, hdn, f5, hna]
-      · have hsn : s ≠ .done := by simpa using hdn
-        constructor <;> simp [apply, hdn, f2, f3, f5, hna, hsn]
-        intro hh; exact (h.noData hh).1
+      cases hdone : r.hsDone
+      · -- completion happens exactly when the target is a post-handshake position
+        cases hsp : s.isPost
+        · constructor <;> simp [apply, f2, f3, f5, hna, hsp, hdone]
+          exact (h.noData hdone).1
+        · constructor <;> simp [apply, f2, f5, hna, hsp, hdone]
+      · have hq : r.st.isPost = true := by
+          cases hq : r.st.isPost
+          · exact absurd hdone (by have := h.hsPost hq hnd; simp [this])
+          · rfl
+        have hsp := (step_post_target c r m hq).1 s b ho
+        constructor <;> simp [apply, f2, f3, f4, f5, hna, hdone, hsp]
+        exact (h.atDone hq).2
     | acceptAbort a =>
-      constructor <;> simp [apply, f2, f3]
+      constructor <;> simp [apply, f2, f3, St.isPost]
       intro hh; exact (h.noData hh).1
     | abort a =>
-      constructor <;> simp [apply, f2, f3]
+      constructor <;> simp [apply, f2, f3, St.isPost]
       intro hh; exact (h.noData hh).1
     | peerClosed =>
-      constructor <;> simp [apply, f2, f3, f5, hna]
+      constructor <;> simp [apply, f2, f3, f5, hna, St.isPost]
       intro hh; exact (h.noData hh).1
     | acceptClosed =>
-      constructor <;> simp [apply, f2, f3, f5, hna]
+      constructor <;> simp [apply, f2, f3, f5, hna, St.isPost]
       intro hh; exact (h.noData hh).1
     | ignore =>
       constructor <;> simp [apply, f1, f2, f3, f4, f5, hna]
       · exact h.noData
       · exact h.atDone
+      · exact h.hsPost
+    | buffer k =>
+      constructor <;> simp [apply, f1, f2, f3, f4, f5, hna]
+      · exact h.noData
+      · exact h.atDone
+      · exact h.hsPost
     | warn =>
       constructor <;> simp [apply, f1, f2, f3, f4, f5, hna]
       · exact h.noData
       · exact h.atDone
+      · exact h.hsPost
     | deliver =>
-      have hdn := hdone_of (Or.inr (Or.inl rfl))
+      have hdn := hpostOf (Or.inr (Or.inl rfl))
       have := h.atDone hdn
-      constructor <;> simp [apply, f1, f2, f3, f4, f5, hna, this.1]
-      · intro hh; exact (h.atDone hh).2
-    | post =>
+      constructor <;> simp [apply, f1, f2, f3, f4, f5, hna, this.1, hdn]
+      · exact this.2
+    | post b =>
       constructor <;> simp [apply, f1, f2, f3, f4, f5, hna]
       · exact h.noData
       · exact h.atDone
+      · exact h.hsPost
+    | phaStart s =>
+      have hpr := hpostOf (Or.inr (Or.inr (Or.inr ⟨s, rfl⟩)))
+      have hdone := h.atDone hpr
+      have hsp := (step_post_target c r m hpr).2 s ho
+      constructor <;> simp [apply, f2, f3, f4, f5, hna, hdone.1, hdone.2, hsp]
 
 theorem inv_run (c : Cfg) (ms : List Msg) : ∀ r, Inv r → Inv (run c r ms) := by
   induction ms with
@@ -129,31 +167,43 @@ theorem run_dead (c : Cfg) (ms : List Msg) : ∀ r, r.st = .dead → run c r ms 
     simp only [run, List.foldl_cons] at ih ⊢
     rw [this]; exact ih r h
 
-/-- after completion the coroutine position is `done` or `dead` forever, and the completion record
+/-- one step on an established connection: the position stays post-handshake or becomes `dead`,
+    and the completion record is not rewritten -/
+theorem feed_post (c : Cfg) (r : Run) (m : Msg) (hp : r.st.isPost = true) (hd : r.hsDone = true) :
+    ((feed c r m).st.isPost = true ∨ (feed c r m).st = .dead) ∧ (feed c r m).accAtDone = r.accAtDone ∧
+    (feed c r m).hsDone = true := by
+  have hnd : (r.st == St.dead) = false := by
+    cases hs : r.st <;> simp_all [St.isPost]
+  obtain ⟨f1, f2, _, _, _, f6, _, _, _, _⟩ := pre_fields c r m
+  have htgt := step_post_target c r m hp
+  unfold feed
+  simp only [hnd, Bool.false_eq_true, if_false]
+  generalize clearPending (countRecord c r m) m = q at *
+  generalize ho : step c r m = o at htgt
+  cases o with
+  | next s b =>
+    have := htgt.1 s b rfl
+    have hcond : (s.isPost && !q.hsDone) = false := by simp [f2, hd]
+    simp [apply, hcond, f2, f6, hd, this]
+  | phaStart s =>
+    have := htgt.2 s rfl
+    simp [apply, f2, f6, hd, this]
+  | _ => simp [apply, f1, f2, f6, hd, hp]
+
+/-- after completion the position is post-handshake or `dead` forever, and the completion record
     (`accAtDone`, `hsDone`) is never rewritten: no second handshake -/
-theorem done_stays (c : Cfg) (ms : List Msg) : ∀ r, r.st = .done →
-    ((run c r ms).st = .done ∨ (run c r ms).st = .dead) ∧ (run c r ms).accAtDone = r.accAtDone ∧
-    (run c r ms).hsDone = r.hsDone := by
+theorem post_stays (c : Cfg) (ms : List Msg) : ∀ r, r.st.isPost = true → r.hsDone = true →
+    ((run c r ms).st.isPost = true ∨ (run c r ms).st = .dead) ∧ (run c r ms).accAtDone = r.accAtDone ∧
+    (run c r ms).hsDone = true := by
   induction ms with
-  | nil => intro r h; exact ⟨Or.inl h, rfl, rfl⟩
+  | nil => intro r h hd; exact ⟨Or.inl h, rfl, hd⟩
   | cons m ms ih =>
-    intro r h
+    intro r h hd
     simp only [run, List.foldl_cons] at ih ⊢
-    have hnd : (r.st == St.dead) = false := by simp [h]
-    obtain ⟨f1, f2, _, _, _, f6, _, _, _⟩ := countRecord_fields c r m
-    have hnn := step_done_no_next c r.epoch r.recsInEpoch m
-    have key : ((feed c r m).st = .done ∨ (feed c r m).st = .dead) ∧ (feed c r m).accAtDone = r.accAtDone ∧
-        (feed c r m).hsDone = r.hsDone := by
-      unfold feed
-      simp only [hnd]
-      rw [h] at *
-      generalize ho : step c St.done r.epoch r.recsInEpoch m = o
-      cases o with
-      | next s b => exact absurd ho (hnn s b)
-      | _ => simp [apply, f1, f2, f6]
+    have key := feed_post c r m h hd
     rcases key.1 with hk | hk
-    · have := ih (feed c r m) hk
-      exact ⟨this.1, by rw [this.2.1, key.2.1], by rw [this.2.2, key.2.2]⟩
+    · have := ih (feed c r m) hk key.2.2
+      exact ⟨this.1, by rw [this.2.1, key.2.1], this.2.2⟩
     · have e : List.foldl (feed c) (feed c r m) ms = feed c r m := run_dead c ms _ hk
       rw [e]
       exact ⟨Or.inr hk, key.2.1, key.2.2⟩
